@@ -1,8 +1,175 @@
-/- Driver handler owned by property C10: `c10 <args…>` requests. -/
+/-
+  Driver handler owned by property C10: `c10 <usize bits> <builtin> <args…>`
+  answers what the *generated* bindings (Generated/C10Builtins.lean, i.e. the
+  transliterated Rust) together with the model vocabulary (Model/Builtins.lean)
+  compute: a canonical value, `none`, `panic`, or `limit`.
+
+  Canonical values (the harness prints the same): `n:<int>`, `b:0|1`, `c:<code
+  point>`, `s:<hex utf-8>`, `some(v)`, `none`, `[v,v,…]`, `ip4:<u32>`,
+  `ip6:<u128>`.  Strings arrive as `x<hex>` (so that the empty string is a token).
+-/
+import RotoV.Generated.C10Builtins
 import Driver.Util
 
 namespace Driver.C10
+open RotoV RotoV.Gen.C10Builtins
 
-def handle (_args : List String) : String := "bad-op"
+def hexDigit (n : Nat) : Char := if n < 10 then Char.ofNat (48 + n) else Char.ofNat (87 + n)
+
+def hexOfBytes (b : ByteArray) : String :=
+  String.ofList (b.toList.foldr (fun x acc => hexDigit (x.toNat / 16) :: hexDigit (x.toNat % 16) :: acc) [])
+
+def parseStr (tok : String) : Option Str :=
+  match tok.toList with
+  | 'x' :: rest =>
+    match Driver.unhex (String.ofList rest) with
+    | some bytes =>
+      match String.fromUTF8? (ByteArray.mk bytes.toArray) with
+      | some s => some ⟨s.toList⟩
+      | none => none
+    | none => none
+  | _ => none
+
+def showStr (s : Str) : String := "s:" ++ hexOfBytes (String.ofList s.chars).toUTF8
+def showChar (c : Char) : String := s!"c:{c.toNat}"
+def showOpt {α} (f : α → String) : Option α → String
+  | some a => s!"some({f a})"
+  | none => "none"
+def showList {α} (f : α → String) (l : List α) : String := "[" ++ ",".intercalate (l.map f) ++ "]"
+def showBool (b : Bool) : String := if b then "b:1" else "b:0"
+def showRes {α} (f : α → String) : Res α → String
+  | .ok a => f a
+  | .panic => "panic"
+def showLim {α} (f : α → String) : Lim α → String
+  | .val a => f a
+  | .limit => "limit"
+def showIp : IpAddr → String
+  | .v4 a => s!"ip4:{a.toNat}"
+  | .v6 a => s!"ip6:{a.toNat}"
+def showNat (n : Nat) : String := s!"n:{n}"
+
+def u64 (t : String) : U64 := ⟨BitVec.ofNat 64 t.toNat!⟩
+
+def parseIp (fam addr : String) : Option IpAddr :=
+  match fam with
+  | "4" => some (.v4 (BitVec.ofNat 32 addr.toNat!))
+  | "6" => some (.v6 (BitVec.ofNat 128 addr.toNat!))
+  | _ => none
+
+/-- the list `mk(n)` of the harness scripts: elements `0, 10, 20, …` -/
+def mkList (n : Nat) : List Nat := (List.range n).map (· * 10)
+
+def swapAt (l : List Nat) (i j : Nat) : List Nat :=
+  match l[i]?, l[j]? with
+  | some a, some b => (l.set i b).set j a
+  | _, _ => l
+
+def rawList [Target] (size n : Nat) : RawListS :=
+  ⟨RInt.ofInt _ _ size, RInt.ofInt _ _ n, RInt.ofInt _ _ (listCapacityAfter size n)⟩
+
+def decimal (ty : String) (bits : Nat) : String :=
+  let w := match ty with | "u8" | "i8" => 8 | "u16" | "i16" => 16 | "u32" | "i32" => 32 | _ => 64
+  if ty.startsWith "i" && bits ≥ 2 ^ (w - 1) then s!"-{2 ^ w - bits}" else s!"{bits}"
+
+def handleT [Target] (args : List String) : String :=
+  match args with
+  | [f, x] =>
+    match f, parseStr x with
+    | "bytes_len", some s => showRes (fun v => showNat v.toNat) (bind_StringBytes_len false s)
+    | "chars_len", some s => showRes (fun v => showNat v.toNat) (bind_StringChars_len false s)
+    | "lines_len", some s => showRes (fun v => showNat v.toNat) (bind_StringLines_len false s)
+    | "bytes_list", some s => showList (fun (b : UInt8) => showNat b.toNat) (String.ofList s.chars).toUTF8.toList
+    | "chars_list", some s => showList showChar s.chars
+    | "lines_list", some s => showList showStr (Str.lines s)
+    | "from_chars", some s => showStr s
+    | _, _ =>
+      match f with
+      | "list_len" => showNat x.toNat!
+      | "list_is_empty" => showBool (x.toNat! == 0)
+      | "list_capacity" => showNat (listCapacityAfter 8 x.toNat!)
+      | "list_build" => showList showNat (mkList x.toNat!)
+      | "char_to_string" => showStr ⟨[Char.ofNat x.toNat!]⟩
+      | _ => "bad-op"
+  | ["int_to_string", ty, v] => showStr ⟨(decimal ty v.toNat!).toList⟩
+  | [f, a, b] =>
+    match f, parseStr a with
+    | "bytes_get", some s => showRes (showOpt showChar) (bind_StringBytes_get false s (u64 b))
+    | "chars_get", some s => showRes (showOpt showChar) (bind_StringChars_get false s (u64 b))
+    | "lines_get", some s => showRes (showOpt showChar) (bind_StringLines_get false s (u64 b))
+    | "repeat", some s => showRes (showLim showStr) (bind_RotoString_repeat false s (u64 b))
+    | _, some s =>
+      match parseStr b with
+      | some t =>
+        match f with
+        | "contains" => showBool (Str.contains s t)
+        | "starts_with" => showBool (Str.starts_with s t)
+        | "ends_with" => showBool (Str.ends_with s t)
+        | "eq" => showBool (s.chars == t.chars)
+        | "append" => showStr (Str.append s t)
+        | "strip_prefix" => showOpt showStr (Str.strip_prefix s t)
+        | "strip_suffix" => showOpt showStr (Str.strip_suffix s t)
+        | "split" => showList showStr (Str.split s t)
+        | _ => "bad-op"
+      | none => "bad-op"
+    | _, none =>
+      let (n, i) := (a.toNat!, b.toNat!)
+      match f with
+      | "list_get" =>
+        showRes (showOpt (fun (o : USz) => showNat (o.toNat / 8 * 10))) (list_get_lookup false (rawList 8 n) (u64 b))
+      | "list_get_s" =>
+        showRes (showOpt (fun (o : USz) => showStr ⟨(toString (o.toNat / 16 * 10)).toList⟩)) (list_get_lookup false (rawList 16 n) (u64 b))
+      | "list_index" => showOpt showNat ((mkList n).idxOf? i)
+      | "list_contains" => showBool ((mkList n).contains i)
+      | "list_concat" => showList showNat (mkList n ++ mkList i)
+      | _ => "bad-op"
+  | [f, a, b, c] =>
+    match f, parseStr a with
+    | "bytes_slice", some s => showRes (showOpt showStr) (bind_StringBytes_slice false s (u64 b) (u64 c))
+    | "chars_slice", some s => showRes (showOpt showStr) (bind_StringChars_slice false s (u64 b) (u64 c))
+    | "lines_slice", some s => showRes (showOpt showStr) (bind_StringLines_slice false s (u64 b) (u64 c))
+    | "splitn", some s =>
+      match parseStr c with
+      | some sep => showRes (showList showStr) (bind_RotoString_splitn false s (u64 b) sep)
+      | none => "bad-op"
+    | "rsplitn", some s =>
+      match parseStr c with
+      | some sep => showRes (showList showStr) (bind_RotoString_rsplitn false s (u64 b) sep)
+      | none => "bad-op"
+    | "split_join", some s =>
+      match parseStr b, parseStr c with
+      | some sep, some sep2 => showStr (Str.join (Str.split s sep) sep2)
+      | _, _ => "bad-op"
+    | _, some _ => "bad-op"
+    | _, none =>
+      match f with
+      | "list_swap" | "list_swap_s" =>
+        let size := if f == "list_swap" then 8 else 16
+        let n := a.toNat!
+        let shown (l : List Nat) : String :=
+          if f == "list_swap" then showList showNat l else showList (fun k => showStr ⟨(toString k).toList⟩) l
+        match bind_ErasedList_swap false (rawList size n) (u64 b) (u64 c) with
+        | .panic => "panic"
+        | .ok none => shown (mkList n)
+        | .ok (some (oi, oj)) => shown (swapAt (mkList n) (oi.toNat / size) (oj.toNat / size))
+      | _ =>
+        match parseIp a b with
+        | some ip =>
+          let len : U8 := ⟨BitVec.ofNat 8 c.toNat!⟩
+          match f with
+          | "prefix_new_addr" | "prefix_addr" | "prefix_min_addr" =>
+            showRes (fun p => showIp p.addr) (bind_Prefix_new false ip len)
+          | "prefix_max_addr" => showRes (fun p => showIp p.max_addr) (bind_Prefix_new false ip len)
+          | "prefix_new_len" => showRes (fun p => showNat p.len) (bind_Prefix_new false ip len)
+          | _ => "bad-op"
+        | none => "bad-op"
+  | _ => "bad-op"
+
+def handle (args : List String) : String :=
+  match args with
+  | pw :: rest =>
+    match pw.toNat? with
+    | some n => let _ : Target := ⟨n⟩; handleT rest
+    | none => "bad-op"
+  | _ => "bad-op"
 
 end Driver.C10
